@@ -125,6 +125,14 @@ def encItemsS (en : Endian) (all : Items) (payload : Bytes) (v : Value) : Items 
   | .cons i r => (encItemS en all payload v i).bind fun a => (encItemsS en all payload v r).bind fun b => .ok (a ++ b)
 end
 
+/-- the serializer class plus struct-typed fields whose own fields are in it -/
+def encWfItems3 : Items → Bool
+  | .nil => true
+  | .cons (.typedef _ (.struct _ (.root _ sitems)) _) r => encWfItems sitems && encWfItems3 r
+  | .cons (.typedef ..) _ => false
+  | .cons (.optional ..) _ => false
+  | .cons i r => encWfItems (.cons i .nil) && encWfItems3 r
+
 /-- `toBytes()` of a packet or struct without parent, struct-typed fields included -/
 def encBodyS (c : Cfg) : Body → Value → Enc Bytes
   | .root nm items, v => encStructS c.e (.root nm items) v
